@@ -58,6 +58,17 @@ var (
 	c23Keys     = []string{"k0", "k1", "k10", "k11", "k2", "k3", "k4", "k5", "k6", "k7", "k8", "k9"}
 	c23Children = []string{"w", "x", "y", "z"}
 	c23Tokens   = []uint64{5, 9}
+	// keys touched only by the bulk operations (one import / one remove-keys call over all of
+	// them: the hand-over of a whole range)
+	c23BulkKeys = func() []string {
+		ks := make([]string, 520)
+		for i := range ks {
+			ks[i] = fmt.Sprintf("b%03d", i)
+		}
+		return ks
+	}()
+	// everything that is read back and compared after a kill
+	c23AllKeys = append(append([]string{}, c23Keys...), c23BulkKeys...)
 )
 
 // c23Op is operation i of the history of (seed): a pure function of its
@@ -95,6 +106,16 @@ func (g *c23Gen) next() op {
 	r := g.r
 	k := r.IntN(100)
 	switch {
+	case k < 2:
+		// one transaction's worth of a whole range arriving
+		o := op{Kind: "imp"}
+		for _, key := range c23BulkKeys {
+			o.Imp = append(o.Imp, impSpec{Key: key, Simple: valSpec{Fill: fmt.Sprintf("s%d.i%d.%s", g.seed%100000, g.i, key), Len: 24}})
+		}
+		return o
+	case k < 4:
+		// ... and leaving again in ONE remove-keys call
+		return op{Kind: "rmk", Keys: append([]string{}, c23BulkKeys...)}
 	case k < 28:
 		return op{Kind: "put", Key: pick(r, c23Keys), Val: g.val()}
 	case k < 36:
@@ -571,26 +592,26 @@ func checkStoreAfterKill(dir string, cs c23Case, j int, run *childRun, m model) 
 		return out
 	}
 	defer kv.Close()
-	obs, err := readStore(kv, c23Keys, true)
+	obs, err := readStore(kv, c23AllKeys, true)
 	if err != nil {
 		out.sig, out.msg = sigC23Read, fmt.Sprintf("after SIGKILL (acked=%d in-flight=%d): %v", acked, inflight, err)
 		return out
 	}
-	got := obs.canon(c23Keys, true)
-	w0 := m0.snapshot(c23Keys)
-	w1 := m1.snapshot(c23Keys)
+	got := obs.canon(c23AllKeys, true)
+	w0 := m0.snapshot(c23AllKeys)
+	w1 := m1.snapshot(c23AllKeys)
 	fate := ""
 	switch {
-	case inflight < 0 && got == w0.canon(c23Keys, true):
+	case inflight < 0 && got == w0.canon(c23AllKeys, true):
 		out.next = m0
 		fate = "between-operations"
-	case inflight >= 0 && got == w1.canon(c23Keys, true) && w1.canon(c23Keys, true) != w0.canon(c23Keys, true):
+	case inflight >= 0 && got == w1.canon(c23AllKeys, true) && w1.canon(c23AllKeys, true) != w0.canon(c23AllKeys, true):
 		out.next = m1
 		fate = "in-flight-committed"
-	case inflight >= 0 && got == w0.canon(c23Keys, true) && w1.canon(c23Keys, true) != w0.canon(c23Keys, true):
+	case inflight >= 0 && got == w0.canon(c23AllKeys, true) && w1.canon(c23AllKeys, true) != w0.canon(c23AllKeys, true):
 		out.next = m0
 		fate = "in-flight-rolled-back"
-	case inflight >= 0 && got == w0.canon(c23Keys, true):
+	case inflight >= 0 && got == w0.canon(c23AllKeys, true):
 		out.next = m0
 		fate = "in-flight-without-visible-effect"
 	default:
@@ -600,10 +621,10 @@ func checkStoreAfterKill(dir string, cs c23Case, j int, run *childRun, m model) 
 			out.doc["want_with_in_flight"] = w1
 		}
 		out.sig = sigC23State
-		out.msg = fmt.Sprintf("after SIGKILL (acked=%d in-flight=%v) the store shows %s", acked, out.doc["in_flight_op"], diffSnap(obs, w0, w1, c23Keys))
+		out.msg = fmt.Sprintf("after SIGKILL (acked=%d in-flight=%v) the store shows %s", acked, out.doc["in_flight_op"], diffSnap(obs, w0, w1, c23AllKeys))
 		return out
 	}
-	probs, err := listingProblems(kv, obs, c23Keys)
+	probs, err := listingProblems(kv, obs, c23AllKeys)
 	if err != nil {
 		out.sig, out.msg = sigC23Read, fmt.Sprintf("after SIGKILL (acked=%d in-flight=%d): %v", acked, inflight, err)
 		return out
@@ -622,6 +643,12 @@ func checkStoreAfterKill(dir string, cs c23Case, j int, run *childRun, m model) 
 		out.labels = append(out.labels, "inflight:"+inflightOp.Kind)
 		if inflightOp.Kind == "imp" && len(inflightOp.Imp) > 3 {
 			out.labels = append(out.labels, "inflight:imp>3keys")
+		}
+		if inflightOp.Kind == "imp" && len(inflightOp.Imp) > 200 {
+			out.labels = append(out.labels, "inflight:bulk-import(520 keys)")
+		}
+		if inflightOp.Kind == "rmk" && len(inflightOp.Keys) > 200 {
+			out.labels = append(out.labels, "inflight:bulk-remove-keys(520 keys)")
 		}
 	}
 	if walSize >= 4000<<10 {
@@ -681,7 +708,7 @@ func exitStatus(err error) (syscall.WaitStatus, bool) {
 
 func TestC23(t *testing.T) {
 	rec := ev.New(t, "C23")
-	rec.Rule("chains of kill -> reopen -> continue on one database: a re-executed child opens the SQLite store and applies an endless history that is a pure function of a seed (put with unique 12 B..20 KB values, delete, prefix append over 4 children so that conflicts are frequent, prefix remove, import of 1..10 keys in one transaction with children and lease tokens, remove-keys of 1..5 keys, release with right/wrong token; 12 keys incl. k1/k10/k11), journalling 'S i' before and 'A i result' after each call on a pipe; the parent SIGKILLs it after a generated journal line (operation 0..11 / ..311 / ..1799 / beyond, so that the WAL passes the 4 MiB auto-checkpoint size) plus 0..900 us, reopens in-process and compares Get/PrefixList/lease of every key with model(acknowledged) or model(acknowledged + the operation in flight), then ListKeys / RangeKeys(0,0) against those reads. One child hosts 4 independent stores (own directory, seed, writer goroutine), so one SIGKILL interrupts 4 stores; one evaluation = one (store, kill). Non-trivial: the kill landed between an operation's S line and its A line on that store. Distinct = distinct (chain, generation, seed, kill plan, store).")
+	rec.Rule("chains of kill -> reopen -> continue on one database: a re-executed child opens the SQLite store and applies an endless history that is a pure function of a seed (put with unique 12 B..20 KB values, delete, prefix append over 4 children so that conflicts are frequent, prefix remove, import of 1..10 keys in one transaction with children and lease tokens, remove-keys of 1..5 keys, release with right/wrong token; 12 keys incl. k1/k10/k11; 2% of the operations import 520 further keys in ONE call and 2% remove all 520 in ONE remove-keys call - a whole range arriving and leaving), journalling 'S i' before and 'A i result' after each call on a pipe; the parent SIGKILLs it after a generated journal line (operation 0..11 / ..311 / ..1799 / beyond, so that the WAL passes the 4 MiB auto-checkpoint size) plus 0..900 us, reopens in-process and compares Get/PrefixList/lease of every key with model(acknowledged) or model(acknowledged + the operation in flight), then ListKeys / RangeKeys(0,0) against those reads. One child hosts 4 independent stores (own directory, seed, writer goroutine), so one SIGKILL interrupts 4 stores; one evaluation = one (store, kill). Non-trivial: the kill landed between an operation's S line and its A line on that store. Distinct = distinct (chain, generation, seed, kill plan, store).")
 	rec.Assume(
 		"SIGKILL only: the OS page cache survives, so fsync policy (synchronous pragma) and power loss are out of reach of this check",
 		"acknowledged = the call returned to the child and its A line reached the pipe; an operation whose A line is missing may or may not be visible",
